@@ -711,7 +711,8 @@ def inuse_family(ctx, n):
                 if op == 'delrule-ns':
                     sheet.deleteRule(rng.randrange(2))
                 elif op == 'delrule-obj':
-                    sheet.deleteRule(sheet.cssRules[rng.randrange(min(2, sheet.cssRules.length))])
+                    if sheet.cssRules.length:
+                        sheet.deleteRule(sheet.cssRules[rng.randrange(min(2, sheet.cssRules.length))])
                 elif op == 'del-map':
                     del sheet.namespaces[rng.choice(['p', 'q'])]
                 elif op == 'insert-dup-prefix':
@@ -738,7 +739,10 @@ def inuse_family(ctx, n):
                     other = cssutils.parseString(rng.choice([
                         'm{left:0} @font-face{font-family:x} n{top:0}', 'm{left:0} @page{margin:0}', '@charset "utf-8"; m{left:0}',
                         '@import "y.css"; m{left:0}', '@namespace r "w"; m{left:0}', 'm{left:0} @media tv{n{top:0}}', '/*c*/ m{left:0}']))
-                    cont = rng.choice([r for r in sheet.cssRules if r.type in (r.MEDIA_RULE, r.PAGE_RULE)])
+                    conts = [r for r in sheet.cssRules if r.type in (r.MEDIA_RULE, r.PAGE_RULE)]
+                    if not conts:
+                        continue
+                    cont = rng.choice(conts)
                     how = rng.random()
                     if how < 0.5:
                         cont.insertRule(other.cssRules, rng.randrange(cont.cssRules.length + 1))
